@@ -20,7 +20,7 @@ func report(c *eng.Ctx, prop string, idx int, r *Run, fs []Finding) {
 	seen := map[string]bool{}
 	// group slices handed to the caller: what each resolution delivered stays what it delivered
 	// (judged by the properties that speak about what a resolution yields)
-	if r != nil && (prop == "C01" || prop == "C02" || prop == "C03" || prop == "C04" || prop == "C09") {
+	if r != nil && (prop == "C01" || prop == "C02" || prop == "C03" || prop == "C04" || prop == "C09" || prop == "C15") {
 		fs = append(append([]Finding(nil), fs...), r.SliceFindings()...)
 	}
 	for _, f := range fs {
